@@ -183,12 +183,20 @@ func callTerm(in string, opts []string, max int, fut ...bool) string {
 	if max > 0 {
 		m = "(Some " + lib.CoqNat(max) + ")"
 	}
-	return lib.CoqApp("CA", in, lib.CoqList(opts), m, lib.CoqBool(len(fut) > 0 && fut[0]), q(""))
+	return lib.CoqApp("CA", in, lib.CoqList(opts), m, lib.CoqBool(len(fut) > 0 && fut[0]), q(""), "None")
+}
+
+// cancelAt: the call term of a call whose own context is cancelled during its superstep n-1
+func cancelAt(term string, n int) string {
+	if !strings.HasSuffix(term, " None)") {
+		panic("cancelAt: unexpected call term " + term)
+	}
+	return strings.TrimSuffix(term, " None)") + " (Some " + lib.CoqNat(n) + "))"
 }
 
 // callTermSuffix: a call whose rendering gets a suffix that the compile options imply
 func callTermSuffix(in string, opts []string, suffix string) string {
-	return lib.CoqApp("CA", in, lib.CoqList(opts), "None", "false", q(suffix))
+	return lib.CoqApp("CA", in, lib.CoqList(opts), "None", "false", q(suffix), "None")
 }
 
 // messages
